@@ -44,6 +44,8 @@ type model struct {
 	held    []E
 	max     bool
 	tainted bool // a successful Delete happened since the heap was last rebuilt/empty
+	ref     *refHeap
+	sync    bool // the implementation has returned exactly the reference's values so far
 }
 
 func (m *model) remove(v E) bool {
@@ -66,6 +68,124 @@ func (m *model) precededBy(v E) (E, bool) {
 	return E{}, false
 }
 
+
+// ---- reference simulation of the KNOWN defect (known_findings.json: heap.order-after-delete)
+//
+// refHeap mirrors the library's array algorithms including the recorded defect (Delete
+// re-sifts from the root, not from the vacated slot). It is consulted ONLY to classify an
+// order violation that occurs after a successful Delete: if this reference, fed the same
+// operations, returns a correct (extremal) value where the implementation returned a wrong
+// one - and both had returned identical values up to that point - the wrong answer is not
+// the recorded defect and is reported as a violation of its own. In every other situation
+// the classification is the one of the known finding. It never declares a violation by
+// itself and is dropped (sync=false) at the first value on which the two differ.
+type refHeap struct {
+	d   []E
+	max bool
+}
+
+func (r *refHeap) less(a, b E) bool { return cmpOf(r.max)(a, b) }
+
+func (r *refHeap) up(i int) {
+	for {
+		p := (i - 1) / 2
+		if !r.less(r.d[i], r.d[p]) {
+			return
+		}
+		r.d[i], r.d[p] = r.d[p], r.d[i]
+		i = p
+	}
+}
+
+func (r *refHeap) down(n, i int) {
+	for {
+		l, rt, cur := 2*i+1, 2*i+2, i
+		if l < n && r.less(r.d[l], r.d[cur]) {
+			cur = l
+		}
+		if rt < n && r.less(r.d[rt], r.d[cur]) {
+			cur = rt
+		}
+		if cur == i {
+			return
+		}
+		r.d[i], r.d[cur] = r.d[cur], r.d[i]
+		i = cur
+	}
+}
+
+func (r *refHeap) push(v E) { r.d = append(r.d, v); r.up(len(r.d) - 1) }
+
+func (r *refHeap) peek() E {
+	if len(r.d) == 0 {
+		return E{}
+	}
+	return r.d[0]
+}
+
+func (r *refHeap) pop() E {
+	if len(r.d) == 0 {
+		return E{}
+	}
+	v := r.d[0]
+	r.d[0] = r.d[len(r.d)-1]
+	r.d = r.d[:len(r.d)-1]
+	r.down(len(r.d), 0)
+	return v
+}
+
+func (r *refHeap) del(v E) bool {
+	for i, x := range r.d {
+		if x == v {
+			n := len(r.d)
+			r.d[i], r.d[n-1] = r.d[n-1], r.d[i]
+			r.d = r.d[:n-1]
+			r.down(n-1, 0) // the recorded defect: from the root, not from i
+			return true
+		}
+	}
+	return false
+}
+
+func (r *refHeap) convert(max bool) {
+	r.max = max
+	for i := (len(r.d) - 2) / 2; i >= 0; i-- {
+		r.down(len(r.d), i)
+	}
+}
+
+func refFromSlice(data []E, max bool) *refHeap {
+	r := &refHeap{d: append([]E{}, data...), max: max}
+	d := r.d
+	for i := len(d)/2 - 1; i >= 0; i-- { // same loop shape as the library (i is advanced inside)
+		for {
+			l, rt := 2*i+1, 2*i+2
+			if l >= len(d) || l < 0 {
+				break
+			}
+			cur := l
+			if rt < len(d) && r.less(d[rt], d[l]) {
+				cur = rt
+			}
+			if !r.less(d[cur], d[i]) {
+				break
+			}
+			d[i], d[cur] = d[cur], d[i]
+			i = cur
+		}
+	}
+	return r
+}
+
+func (r *refHeap) extremal(v E) bool {
+	for _, x := range r.d {
+		if r.less(x, v) {
+			return false
+		}
+	}
+	return true
+}
+
 func sameMultiset(a, b []E) bool {
 	if len(a) != len(b) {
 		return false
@@ -83,15 +203,39 @@ func sameMultiset(a, b []E) bool {
 	return true
 }
 
-func orderSig(m *model, what string) string {
+// orderSig classifies an order violation; refVal is what the reference of the known defect
+// returned for the same call (refOK=false: the reference is out of sync or absent).
+func orderSig(m *model, what string, refVal E, refOK bool) string {
 	if m.tainted {
+		if refOK && m.ref.extremalWith(refVal) {
+			// the recorded defect would have answered correctly here
+			return "heap.order-after-delete-not-the-known-defect:" + what
+		}
 		return "heap.order-after-delete"
 	}
 	return "heap.order:" + what
 }
 
+// extremalWith: is v extremal among the reference's elements plus v itself (used after a pop,
+// when v has already left the reference).
+func (r *refHeap) extremalWith(v E) bool { return r.extremal(v) }
+
 // checkTop validates a Peek/Pop result v against the model (before removal).
 func checkTop(w *core.Worker, m *model, step int, what string, v E) bool {
+	// feed the same call to the reference of the known defect
+	var refVal E
+	refOK := false
+	if m.ref != nil && m.sync {
+		if what == "Pop" {
+			refVal = m.ref.pop()
+		} else {
+			refVal = m.ref.peek()
+		}
+		refOK = true
+		if refVal != v {
+			m.sync = false // from here on the reference says nothing
+		}
+	}
 	if len(m.held) == 0 {
 		if v != (E{}) {
 			w.Violation("heap.nonzero-on-empty:"+what, fmt.Sprintf("step %d: %s on an empty heap returned %+v", step, what, v))
@@ -110,7 +254,7 @@ func checkTop(w *core.Worker, m *model, step int, what string, v E) bool {
 		return false
 	}
 	if x, bad := m.precededBy(v); bad {
-		w.Violation(orderSig(m, what), fmt.Sprintf("step %d: %s returned %+v although held %+v precedes it (max=%v, held %v)", step, what, v, x, m.max, m.held))
+		w.Violation(orderSig(m, what, refVal, refOK), fmt.Sprintf("step %d: %s returned %+v although held %+v precedes it (max=%v, held %v; reference of the known defect returned %+v, in sync before: %v)", step, what, v, x, m.max, m.held, refVal, refOK))
 		// order violations do not stop the case: conservation is still checked
 	}
 	return true
@@ -142,11 +286,13 @@ func run(w *core.Worker, c Case) {
 			return
 		}
 		m.held = append([]E{}, c.Init...)
+		m.ref, m.sync = refFromSlice(c.Init, c.Max), true
 		if !observe(w, h, m, -1) {
 			return
 		}
 	} else {
 		h = heap.NewHeap(cmpOf(c.Max))
+		m.ref, m.sync = &refHeap{max: c.Max}, true
 	}
 	deletes, maxDepth := 0, 0
 
@@ -156,9 +302,13 @@ func run(w *core.Worker, c Case) {
 		case "push":
 			p = core.Catch(func() { h.Push(op.V) })
 			m.held = append(m.held, op.V)
+			m.ref.push(op.V)
 		case "pushN":
 			p = core.Catch(func() { h.Push(op.Vals...) })
 			m.held = append(m.held, op.Vals...)
+			for _, v := range op.Vals {
+				m.ref.push(v)
+			}
 		case "pop":
 			var v E
 			p = core.Catch(func() { v = h.Pop() })
@@ -177,9 +327,11 @@ func run(w *core.Worker, c Case) {
 		case "clear":
 			p = core.Catch(func() { h.Clear() })
 			m.held = nil
+			m.ref.d = nil
 		case "convert":
 			m.max = !m.max
 			p = core.Catch(func() { h.Convert(cmpOf(m.max)) })
+			m.ref.convert(m.max)
 			m.tainted = false // Convert re-heapifies the whole array
 		case "delete":
 			var ok bool
@@ -194,6 +346,9 @@ func run(w *core.Worker, c Case) {
 				if ok != had {
 					w.Violation("heap.delete-result", fmt.Sprintf("step %d: Delete(%+v) reported %v, model held it: %v (held %v)", i, op.V, ok, had, m.held))
 					return
+				}
+				if m.ref.del(op.V) != had {
+					m.sync = false
 				}
 				if had {
 					m.remove(op.V)
@@ -243,6 +398,18 @@ func run(w *core.Worker, c Case) {
 						return
 					}
 				}
+				// the library builds the result by pushing the receiver's array, then the argument's
+				nr, or := &refHeap{max: m.max}, &refHeap{max: m.max}
+				for _, v := range op.Vals {
+					or.push(v)
+				}
+				for _, v := range m.ref.d {
+					nr.push(v)
+				}
+				for _, v := range or.d {
+					nr.push(v)
+				}
+				m.ref = nr
 				h = res
 				m.held = union
 				m.tainted = false // the result is built by re-pushing every element
@@ -335,7 +502,7 @@ func runSort(w *core.Worker, c SortCase) {
 func TestProp(t *testing.T) {
 	r := core.Start(t, "C03")
 	defer r.Finish()
-	r.Rule("heap-sweep/heap-random: operation sequences on heap.Heap[struct{K,ID}] (comparators look at K only, so equal K with different ID are ties) checked against a multiset model: Pop/Peek must return a held value that no held value precedes under the current comparator, Delete result = membership, Size/IsEmpty/GetValues-as-multiset, Merge leaves inputs intact, Meld empties them, final drain; non-trivial = the heap held >= 2 elements at some point; heap-sort: Sort/FromSlice on slices, non-trivial = length >= 3; distinct by hash of the case")
+	r.Rule("heap-sweep/heap-random: operation sequences on heap.Heap[struct{K,ID}] (comparators look at K only, so equal K with different ID are ties) checked against a multiset model: Pop/Peek must return a held value that no held value precedes under the current comparator, Delete result = membership, Size/IsEmpty/GetValues-as-multiset, Merge leaves inputs intact, Meld empties them, final drain; an order violation after a successful Delete carries the known-finding signature only if a reference simulation of that recorded defect does not answer correctly at that point while having agreed with the implementation so far; non-trivial = the heap held >= 2 elements at some point; heap-sort: Sort/FromSlice on slices, non-trivial = length >= 3; distinct by hash of the case")
 
 	vals := []E{{K: 0}, {K: 1}, {K: 1, ID: 1}, {K: 2}}
 	var alpha []Op
